@@ -124,16 +124,10 @@ pub proof fn lemma_layout(buf: Seq<u8>, m: int, fk: Seq<u8>, id: PlainRef, aes: 
 
 /// "sAlT" read as bytes is 0x73 0x41 0x6C 0x54 (and has 4 bytes: copy_from_slice length check)
 pub proof fn lemma_salt_literal()
-    ensures "sAlT"@.len() == 4, forall|r: Seq<u8>| (r.len() == 4 && (forall|i: int| 0 <= i < 4 ==> r[i] == "sAlT"@[i] as u8)) ==> r =~= salt()
+    ensures "sAlT"@.len() == 4, forall|i: int| 0 <= i < 4 ==> (#[trigger] "sAlT"@[i]) as u8 == salt()[i]
 {
     reveal_strlit("sAlT");
-    assert forall|r: Seq<u8>| (r.len() == 4 && (forall|i: int| 0 <= i < 4 ==> r[i] == "sAlT"@[i] as u8)) implies r =~= salt() by {
-        assert(r[0] == "sAlT"@[0] as u8);
-        assert(r[1] == "sAlT"@[1] as u8);
-        assert(r[2] == "sAlT"@[2] as u8);
-        assert(r[3] == "sAlT"@[3] as u8);
-        assert('s' as u8 == 0x73u8 && 'A' as u8 == 0x41u8 && 'l' as u8 == 0x6Cu8 && 'T' as u8 == 0x54u8);
-    }
+    assert('s' as u8 == 0x73u8 && 'A' as u8 == 0x41u8 && 'l' as u8 == 0x6Cu8 && 'T' as u8 == 0x54u8);
 }
 
 // ---- L0 helpers (R7). Bodies of std helpers are the hoisted expression; helpers standing for third-party
@@ -158,7 +152,8 @@ fn hoist_to_le_bytes(x: u64) -> (r: [u8; 8])
 /// b"..." byte-string literal, kept verbatim in the text as a str literal (Verus has no byte-string literals)
 #[verifier::external_body]
 fn hoist_bstr(s: &'static str) -> (r: &'static [u8])
-    ensures r@.len() == s@.len(), forall|i: int| 0 <= i < s@.len() ==> r@[i] == s@[i] as u8
+    ensures r@.len() == s@.len(), forall|i: int| 0 <= i < s@.len() ==> r@[i] == s@[i] as u8,
+            s@.len() == 0 ==> r@ == Seq::<u8>::empty()
 { s.as_bytes() }
 
 #[verifier::external_body]
@@ -404,11 +399,8 @@ pub proof fn lemma_concat_empty(a: Seq<u8>)
     ensures Seq::<u8>::empty() + a =~= a, a + Seq::<u8>::empty() =~= a
 {}
 pub proof fn lemma_empty_literal()
-    ensures ""@.len() == 0, forall|s: Seq<u8>| #[trigger] s.len() == 0 ==> s == Seq::<u8>::empty()
-{
-    reveal_strlit("");
-    assert forall|s: Seq<u8>| #[trigger] s.len() == 0 implies s == Seq::<u8>::empty() by { assert(s =~= Seq::<u8>::empty()); }
-}
+    ensures ""@.len() == 0
+{ reveal_strlit(""); }
 pub open spec fn fresh_decoder(d: Decoder, dict: CryptDict) -> bool {
     d.encrypt_indirect_object is None && d.metadata_indirect_object is None && d.encrypt_metadata == dict.encrypt_metadata
 }
@@ -566,6 +558,7 @@ impl Decoder {
     { unimplemented!() }
 //@@ Decoder::new
 //@@ Decoder::from_password
+//@@ Decoder::default
 }
 
 impl Decoder {
